@@ -16,7 +16,7 @@ Reading guide
 * per class: `<class>_dec_encodable`, `<class>_resave_stable`.
 -/
 import PsdVerif.Lemmas.PayloadResaveSamples
-import PsdVerif.Props.C01Payload3
+import PsdVerif.Lemmas.Payload3Samples
 import PsdVerif.Generated.Terms
 import PsdVerif.Model.PayloadResaveTables
 import PsdVerif.Generated.C02Formats
@@ -435,7 +435,13 @@ theorem typed_image_resource_resave_stable_partial (tb : Descriptor.Tables) (ht 
     ∃ bs, r.enc tb = .ok bs ∧ TRes.dec tb bs 0 = .ok (r, bs.length) := by
   obtain ⟨w, bs, hbs⟩ := typed_image_resource_dec_encodable_partial tb ht b 0 r n h hl
   refine ⟨bs, hbs, ?_⟩
-  have := C01Payload3.typed_image_resource_roundtrip tb r w bs [] [] hbs
+  have hb : bs = r.encT tb := by
+    unfold TRes.enc at hbs
+    split at hbs
+    · cases hbs; rfl
+    · cases hbs
+  subst hb
+  have := TRes.dec_at tb w (At.self (r.encT tb))
   simpa using this
 
 /-- Whole documents with typed resources: whatever `PSD.read` returns, every image resource in it is a well-formed typed
@@ -460,7 +466,9 @@ theorem resave_stable_typed_partial (tb : Descriptor.Tables) (ht : Descriptor.Te
     ResPSD.read tb s 0 = .ok (x.refresh, s.length) ∧ ResPSD.enc tb pad x.refresh = .ok s := by
   obtain ⟨a, _, _⟩ := dec_encodable_typed tb ht pad b x p h hl
   have hwf : ResPSD.WF tb pad x := ⟨hdeep, a⟩
-  exact ⟨C01Payload3.psd_roundtrip_resources tb pad x hwf s hs, by rw [ResPSD.enc_refresh, hs]⟩
+  refine ⟨?_, by rw [ResPSD.enc_refresh, hs]⟩
+  rw [ResPSD.enc_ok tb hs]
+  exact ResPSD.read_encT tb hwf
 
 
 /-! ## normalising readers -/
@@ -511,11 +519,12 @@ example : ResaveSamples.blockView ((DescriptorPayload.codec Descriptor.realTable
 descriptors), read from its own bytes, satisfies every hypothesis -/
 example : ∃ b x p s, ResPSD.read Samples.rtb b 0 = .ok (x, p) ∧ x.ResourcesOK Samples.rtb ∧ (x.flat Samples.rtb).WF 4 ∧
     ResPSD.enc Samples.rtb 4 x = .ok s ∧ ResPSD.read Samples.rtb s 0 = .ok (x.refresh, s.length) := by
-  have hwf := C01Payload3.typed_samples_wf
+  have hwf : ResPSD.WF Samples.rtb 4 Samples.resDoc ∧ ResPSD.payloadFits Samples.rtb Samples.resDoc := by decide +kernel
   have hd : DeepPSD.enc 4 (Samples.resDoc.flat Samples.rtb) = .ok ((Samples.resDoc.flat Samples.rtb).encT 4) := by decide +kernel
   have henc : ResPSD.enc Samples.rtb 4 Samples.resDoc = .ok ((Samples.resDoc.flat Samples.rtb).encT 4) := by
     unfold ResPSD.enc; rw [if_pos hwf.2, hd]
-  have hread := C01Payload3.psd_roundtrip_resources Samples.rtb 4 _ hwf.1 _ henc
+  have hread : ResPSD.read Samples.rtb ((Samples.resDoc.flat Samples.rtb).encT 4) 0 =
+      .ok (Samples.resDoc.refresh, ((Samples.resDoc.flat Samples.rtb).encT 4).length) := ResPSD.read_encT Samples.rtb hwf.1
   have hok : Samples.resDoc.refresh.ResourcesOK Samples.rtb := by decide +kernel
   have hdeep : (Samples.resDoc.refresh.flat Samples.rtb).WF 4 := by decide +kernel
   have henc' : ResPSD.enc Samples.rtb 4 Samples.resDoc.refresh = .ok ((Samples.resDoc.flat Samples.rtb).encT 4) := by
